@@ -10,4 +10,9 @@ TEXTS["C03"] = {
     "note": "Real Cluster, allocate.go, both allocators and pubsubmon from /repo; consensus, tracker, IPFS and informer are harness fakes behind the component interfaces. Metrics expire +-1 h (no near-now expiry). Trusts the harness model of 'healthy'.",
     "technique": "property-based testing with a validity-predicate oracle (rapid)",
 }
+TEXTS["C04"] = {
+    "level": "Model-based stateful testing: generated histories of Pin/PinPath/PinUpdate/Unpin/UnpinPath and Cluster.Pin RPC calls (all option deltas, every pin type, sharded installs, follower and default-factor flips) run against a real Cluster; after every step the pinset, the returned value or error and the LogPin/LogUnpin calls reaching consensus are compared with a reference model written from the statement. Exploration level: histories are sampled, the CID universe is small so collisions are the common case.",
+    "note": "Real cluster.go/api code from /repo; consensus is a harness fake over a real dsstate, monitor is the real pubsubmon with all members healthy. Trusts the reference model (oracle decisions listed in the evidence assumptions and DESIGN section 7).",
+    "technique": "model-based stateful property testing (rapid state machine) against a reference pinset model",
+}
 PENDING = {}
